@@ -28,13 +28,27 @@ def _env(extra=None):
 
 
 def _parse_result(stdout):
+    """All SANITIZE-RESULT lines of the run (one per Miri seed), merged: cases and
+    evaluations summed, violations and inconclusive notes concatenated."""
+    merged = None
     for line in stdout.splitlines():
-        if line.startswith("SANITIZE-RESULT "):
-            try:
-                return json.loads(line[len("SANITIZE-RESULT "):])
-            except ValueError:
-                return None
-    return None
+        i = line.find("SANITIZE-RESULT ")
+        if i < 0:
+            continue
+        try:
+            r = json.loads(line[i + len("SANITIZE-RESULT "):])
+        except ValueError:
+            continue
+        if merged is None:
+            merged = r
+            merged["runs"] = 1
+        else:
+            merged["runs"] += 1
+            merged["cases"] = (merged.get("cases") or 0) + (r.get("cases") or 0)
+            merged["evaluations"] = (merged.get("evaluations") or 0) + (r.get("evaluations") or 0)
+            merged.setdefault("violations", []).extend(r.get("violations", []))
+            merged.setdefault("inconclusive", []).extend(r.get("inconclusive", []))
+    return merged
 
 
 def _report_signature(pid, leg, text):
@@ -72,6 +86,7 @@ def _judge(pid, leg, rc, out, err, dt, extra_summary=None):
                                   "case": {"kind": "leg", "leg": leg, "cmd": "see legs.py"}})
         res["summary"]["report"] = line
     if parsed:
+        res["summary"]["runs"] = parsed.get("runs", 1)
         res["summary"]["cases"] = parsed.get("cases")
         res["summary"]["evaluations"] = parsed.get("evaluations")
         res["summary"]["observed"] = {k: v for k, v in list(parsed.get("counters", {}).items())[:12]}
